@@ -27,8 +27,11 @@ type (
 type Mutex struct{ real sync.Mutex }
 
 func (m *Mutex) Lock() {
-	verifmc.SchedLock(uintptr(unsafe.Pointer(m)), false)
+	c := verifmc.SchedLock(uintptr(unsafe.Pointer(m)), false)
 	m.real.Lock()
+	if c {
+		verifmc.SchedHeld()
+	}
 }
 
 func (m *Mutex) Unlock() {
@@ -36,14 +39,48 @@ func (m *Mutex) Unlock() {
 	verifmc.SchedUnlock(uintptr(unsafe.Pointer(m)), false)
 }
 
-func (m *Mutex) TryLock() bool { return m.real.TryLock() }
+func (m *Mutex) TryLock() bool {
+	if c, ok := verifmc.SchedTryLock(uintptr(unsafe.Pointer(m)), false); c {
+		if ok {
+			m.real.Lock()
+			verifmc.SchedHeld()
+		}
+		return ok
+	}
+	return m.real.TryLock()
+}
 
 // RWMutex mirrors sync.RWMutex.
 type RWMutex struct{ real sync.RWMutex }
 
 func (m *RWMutex) Lock() {
-	verifmc.SchedLock(uintptr(unsafe.Pointer(m)), false)
+	c := verifmc.SchedLock(uintptr(unsafe.Pointer(m)), false)
 	m.real.Lock()
+	if c {
+		verifmc.SchedHeld()
+	}
+}
+
+func (m *RWMutex) TryLock() bool {
+	if c, ok := verifmc.SchedTryLock(uintptr(unsafe.Pointer(m)), false); c {
+		if ok {
+			m.real.Lock()
+			verifmc.SchedHeld()
+		}
+		return ok
+	}
+	return m.real.TryLock()
+}
+
+func (m *RWMutex) TryRLock() bool {
+	if c, ok := verifmc.SchedTryLock(uintptr(unsafe.Pointer(m)), true); c {
+		if ok {
+			m.real.RLock()
+			verifmc.SchedHeld()
+		}
+		return ok
+	}
+	return m.real.TryRLock()
 }
 
 func (m *RWMutex) Unlock() {
@@ -52,8 +89,11 @@ func (m *RWMutex) Unlock() {
 }
 
 func (m *RWMutex) RLock() {
-	verifmc.SchedLock(uintptr(unsafe.Pointer(m)), true)
+	c := verifmc.SchedLock(uintptr(unsafe.Pointer(m)), true)
 	m.real.RLock()
+	if c {
+		verifmc.SchedHeld()
+	}
 }
 
 func (m *RWMutex) RUnlock() {
